@@ -67,7 +67,7 @@ void pkt_to_ogg(const pkt_t *p, ogg_packet *op){
 
 /* ================= signals ================= */
 static const char *signames[SIG_NKINDS]={"silence","dc","tone","multi","noise","clicks","sweep","over10x",
-  "denormal","alt","bursts","impulse","endclick","gated","wide"};
+  "denormal","alt","bursts","impulse","endclick","gated","wide","onset"};
 const char *sig_name(int k){ return (k>=0&&k<SIG_NKINDS)?signames[k]:"?"; }
 static inline double unit_hash(uint64_t a){ return (hash64(a)>>11)*(1.0/9007199254740992.0); }
 float sig_sample(int kind, uint64_t seed, int ch, long i, long rate, long nsamples){
@@ -98,12 +98,21 @@ float sig_sample(int kind, uint64_t seed, int ch, long i, long rate, long nsampl
   case SIG_GATED: { long seg=i/(rate/8>0?rate/8:1); uint64_t h=hash64(cs+seg*131);
     if(h%3==0) return 0.f;                       /* exact digital silence, channel by channel */
     return sig_sample(SIG_MULTI,seed,ch,i,rate,nsamples); }
+  case SIG_ONSET: { long t0=nsamples/2+(long)(hash64(seed^0x0115e7)%1000); long dur=rate/6>0?rate/6:1;
+    if(i<t0 || i>=t0+dur) return 0.f;
+    /* the burst channel is chosen by the caller-visible helper; here: channel index must match for every channel count, so encode it in the seed */
+    if((int)((seed>>8)%64)!=ch) return 0.f;
+    return (float)(0.8*(2*unit_hash(cs^((uint64_t)i*0x2545F4914F6CDD1DULL))-1)); }
   case SIG_WIDE: {
     double env=0.4+0.25*sin(2*M_PI*1.13*t+ch)+0.15*sin(2*M_PI*0.61*t*(1+0.07*ch));
     double s=0; for(int k=0;k<7;k++){ double f=rate*(0.01+0.06*k+0.004*ch+0.012*unit_hash(cs+k+40)); s+=sin(2*M_PI*f*t+1.3*k); }
     return (float)(0.12*env*s); }
   }
   return 0.f;
+}
+
+void sig_onset_params(uint64_t seed,int channels,long nsamples,int *burst_channel,long *onset){
+  (void)channels; *burst_channel=(int)((seed>>8)%64); *onset=nsamples/2+(long)(hash64(seed^0x0115e7)%1000);
 }
 
 /* ================= encoder driver ================= */
@@ -117,8 +126,10 @@ void enccfg_json(const enccfg_t *c, char *out, size_t n){
     c->channels,c->rate,c->mode,c->quality,c->br_max,c->br_nom,c->br_min,c->coupling_off,c->lowpass_khz,c->have_rm2,
     sig_name(c->sig),(unsigned long long)c->sigseed,c->nsamples,c->chunk,c->lazy);
 }
+static int g_enc_direct=0;
 static void enc_drain(vorbis_dsp_state *vd, vorbis_block *vb, pktlist_t *pk){
   ogg_packet op;
+  if(g_enc_direct){ while(vorbis_analysis_blockout(vd,vb)==1){ if(vorbis_analysis(vb,&op)==0) pktlist_push(pk,&op); } return; }
   while(vorbis_analysis_blockout(vd,vb)==1){
     vorbis_analysis(vb,NULL);
     vorbis_bitrate_addblock(vb);
@@ -172,6 +183,7 @@ int enc_run(const enccfg_t *c, encres_t *r){
   else vorbis_comment_add_tag(&vc,"ENCODER","vh-harness");
   vorbis_analysis_init(&vd,&vi);
   vorbis_block_init(&vd,&vb);
+  g_enc_direct= c->direct && !r->managed && c->mode!=ENC_MANAGED && c->mode!=ENC_INIT_ABR;
   {
     ogg_packet h1,h2,h3;
     vorbis_analysis_headerout(&vd,&vc,&h1,&h2,&h3);
@@ -209,11 +221,13 @@ void encres_free(encres_t *r){ pktlist_free(&r->pk); }
 
 /* ================= mux / scan ================= */
 static void emit_page(buf_t *out, ogg_page *og){ buf_add(out,og->header,og->header_len); buf_add(out,og->body,og->body_len); }
-void mux_stream(const pktlist_t *pk, int serial, int policy, int fill, uint64_t seed, buf_t *out){
+void mux_stream(const pktlist_t *pk, int serial, int policy, int fill, uint64_t seed, buf_t *out){ mux_stream_off(pk,serial,policy,fill,seed,0,out); }
+void mux_stream_off(const pktlist_t *pk, int serial, int policy, int fill, uint64_t seed, long goffset, buf_t *out){
   ogg_stream_state os; ogg_page og; ogg_packet op; rng_t r; rng_seed(&r,seed,0x30,(uint64_t)serial);
   ogg_stream_init(&os,serial);
   for(int i=0;i<pk->n;i++){
     pkt_to_ogg(&pk->v[i],&op);
+    if(i>=3 && op.granulepos>=0) op.granulepos+=goffset;
     ogg_stream_packetin(&os,&op);
     if(i==0 || i==2){ while(ogg_stream_flush(&os,&og)) emit_page(out,&og); continue; }
     if(i<3) continue;
@@ -294,6 +308,7 @@ void gen_chain(rng_t *r, int maxlinks, long maxN, int flags, chaindesc_t *d){
       c->channels= rng_chance(r,0.15)?255:(int)rng_range(r,12,64); c->rate=44100; c->mode=ENC_VBR; c->quality=1.0f;
       c->sig= rng_chance(r,0.5)?SIG_ALT:SIG_NOISE; c->nsamples=rng_range(r,1500,c->channels>100?2600:7000); c->chunk=CHUNK_1024;
     }
+    { uint64_t gh=hash64(d->muxseed*131+(uint64_t)i*977+5); d->goffset[i]= (flags&GC_GOFFSET) && (gh%100)<18 ? (long)(1+(gh>>8)%((gh>>40)%3==0?5000000:90000)) : 0; }
     for(int j=0;j<i;j++) if(d->serial[j]==d->serial[i]){ d->serial[i]=(int)(hash64(d->serial[i]+i*7919)&0x7fffffff); j=-1; }
     int ps=(int)rng_below(r,100);
     d->policy[i]= ps<35?PAGE_DEFAULT: ps<55?PAGE_FLUSH_EACH: ps<85?PAGE_FILL:PAGE_RANDOM;
@@ -301,12 +316,24 @@ void gen_chain(rng_t *r, int maxlinks, long maxN, int flags, chaindesc_t *d){
     { int fs=(int)rng_below(r,5); if(c->channels>8) fs=4; d->fill[i]= fs==0?1: fs==1?255: fs==2?(int)rng_range(r,256,2000): fs==3?(int)rng_range(r,2000,12000):(int)rng_range(r,12000,65025); }
   }
 }
-int build_chain(const chaindesc_t *d, buf_t *out, size_t *link_off){
+/* muxes link i; a granule offset is dropped again when all the audio lands on one page: for a page that is both the first and
+   the last of a link, "starts above zero" and "last packet trimmed" cannot be told apart (one granule position, two unknowns) */
+void vh_mux_link(const pktlist_t *pk, chaindesc_t *d, int i, buf_t *out){
+  if(d->goffset[i]){
+    buf_t t; buf_init(&t); mux_stream_off(pk,d->serial[i],d->policy[i],d->fill[i],d->muxseed+i,d->goffset[i],&t);
+    pageinfo_t *pg=NULL; int np=page_scan(t.p,t.n,&pg); int audio=0; for(int k=0;k<np;k++) if(pg[k].granule>0) audio++;
+    free(pg);
+    if(audio>=2){ buf_add(out,t.p,t.n); buf_free(&t); return; }
+    buf_free(&t); d->goffset[i]=0;
+  }
+  mux_stream_off(pk,d->serial[i],d->policy[i],d->fill[i],d->muxseed+i,0,out);
+}
+int build_chain(chaindesc_t *d, buf_t *out, size_t *link_off){
   for(int i=0;i<d->nlinks;i++){
     encres_t er; int ret=enc_run(&d->cfg[i],&er);
     if(link_off) link_off[i]=out->n;
     if(ret){ encres_free(&er); return ret; }
-    mux_stream(&er.pk,d->serial[i],d->policy[i],d->fill[i],d->muxseed+i,out);
+    vh_mux_link(&er.pk,d,i,out);
     encres_free(&er);
   }
   if(link_off) link_off[d->nlinks]=out->n;
@@ -318,6 +345,7 @@ void chain_describe(const chaindesc_t *d, char *out, size_t n){
     const enccfg_t *c=&d->cfg[i];
     k+=snprintf(out+k,n-k," [%dch %ldHz %s%.2f N=%ld %s pg%d/%d ser=%d]",c->channels,c->rate,c->mode==ENC_VBR?"q":"abr",
       c->mode==ENC_VBR?c->quality:(float)c->br_nom/1000.f,c->nsamples,sig_name(c->sig),d->policy[i],d->fill[i],d->serial[i]);
+    if(d->goffset[i] && k+24<n) k+=snprintf(out+k,n-k,"{g+%ld}",d->goffset[i]);
   }
 }
 
